@@ -22,6 +22,9 @@ use datafusion_common::{JoinSide, JoinType, NullEquality};
 use datafusion_datasource::memory::MemorySourceConfig;
 use datafusion_execution::TaskContext;
 use datafusion_execution::config::SessionConfig;
+use datafusion_execution::disk_manager::{DiskManagerBuilder, DiskManagerMode};
+use datafusion_execution::memory_pool::GreedyMemoryPool;
+use datafusion_execution::runtime_env::RuntimeEnvBuilder;
 use datafusion_expr::Operator;
 use datafusion_physical_expr::expressions::{BinaryExpr, Column};
 use datafusion_physical_expr::{LexOrdering, Partitioning, PhysicalExpr, PhysicalSortExpr};
@@ -283,12 +286,243 @@ fn shj_stale_hash_probe(run: &mut Run, rt: &tokio::runtime::Runtime) {
     }
 }
 
+// ------------------------------------------------------------------------------------------------
+// operators under a memory budget (memory-dependent paths): NestedLoopJoinExec's OOM fallback that
+// processes the left side in chunks with spilled/replayed inputs, SortMergeJoinExec's spilling of
+// buffered batches, HashJoinExec / SymmetricHashJoinExec whose reservations can only fail.
+
+fn ctx_mem(batch_size: usize, limit: usize, spill: bool) -> Arc<TaskContext> {
+    let cfg = SessionConfig::new().with_batch_size(batch_size);
+    let mode = if spill { DiskManagerMode::OsTmpDirectory } else { DiskManagerMode::Disabled };
+    let rt = RuntimeEnvBuilder::new()
+        .with_memory_pool(Arc::new(GreedyMemoryPool::new(limit)))
+        .with_disk_manager_builder(DiskManagerBuilder::default().with_mode(mode))
+        .build_arc()
+        .unwrap();
+    Arc::new(TaskContext::default().with_session_config(cfg).with_runtime(rt))
+}
+
+/// rows cut into consecutive batches of exactly `k` rows (the last one may be shorter)
+fn fixed_batches(rows: &[Row], k: usize) -> Vec<Vec<Vec<Row>>> {
+    vec![rows.chunks(k).map(|c| c.to_vec()).collect()]
+}
+
+fn key_eq(ne: bool, a: &[Option<i64>], b: &[Option<i64>]) -> bool {
+    a.iter().zip(b).all(|(x, y)| match (x, y) {
+        (Some(x), Some(y)) => x == y,
+        (None, None) => ne,
+        _ => false,
+    })
+}
+
+impl Input {
+    fn matches(&self, l: &Row, r: &Row) -> bool {
+        key_eq(self.ne, &l[..self.nkeys], &r[..self.nkeys]) && (!self.filter || matches!((l[2], r[2]), (Some(x), Some(y)) if x < y))
+    }
+    /// what the right-side final stage of a nested loop join emits (`need_produce_right_in_final`)
+    fn right_final_rows(&self) -> Vec<String> {
+        let matched = |r: &Row| self.l.iter().any(|l| self.matches(l, r));
+        let pad = |r: &Row| {
+            let mut v: Row = vec![None, None, None];
+            v.extend_from_slice(r);
+            show_row(&v)
+        };
+        match self.jt {
+            JoinType::Right | JoinType::Full => self.r.iter().filter(|r| !matched(r)).map(pad).collect(),
+            JoinType::RightAnti => self.r.iter().filter(|r| !matched(r)).map(|r| show_row(r)).collect(),
+            JoinType::RightSemi => self.r.iter().filter(|r| matched(r)).map(|r| show_row(r)).collect(),
+            JoinType::RightMark => self
+                .r
+                .iter()
+                .map(|r| {
+                    let mut v = r.clone();
+                    v.push(Some(matched(r) as i64));
+                    show_row(&v)
+                })
+                .collect(),
+            _ => vec![],
+        }
+    }
+}
+
+fn bag_rows(b: &str) -> Vec<String> {
+    if b == "-" { vec![] } else { b.split(';').map(|s| s.to_string()).collect() }
+}
+
+/// `got` = `want` minus exactly the rows of the right-side final stage (and that stage is non-empty)
+fn lost_exactly_right_final(inp: &Input, got: &str, want: &str) -> bool {
+    let mut fin = inp.right_final_rows();
+    if fin.is_empty() {
+        return false;
+    }
+    let mut expect: Vec<String> = bag_rows(want);
+    for f in fin.drain(..) {
+        match expect.iter().position(|x| *x == f) {
+            Some(i) => {
+                expect.remove(i);
+            }
+            None => return false,
+        }
+    }
+    expect.sort();
+    expect == bag_rows(got)
+}
+
+fn is_resources(e: &str) -> bool {
+    e.contains("Resources exhausted") || e.contains("ResourcesExhausted") || e.contains("Failed to allocate") || e.contains("Memory Exhausted")
+}
+
+/// record one memory-limited run: spec correspondence + oracle against the unlimited nested loop join
+#[allow(clippy::too_many_arguments)]
+fn record_mem(run: &mut Run, opname: &str, tag: &str, got: &Result<String, String>, want: &str, req: &str, cfg: &str, nt: bool, inp: &Input) {
+    match got {
+        Err(e) if is_resources(e) => run.count(&format!("mem_{tag}_resources_exhausted")),
+        Err(e) => {
+            run.count(&format!("mem_{tag}_other_error"));
+            run.oracle(false, &format!("{opname}[memory-limited {cfg}] failed with a non-resource error {req}"), e);
+        }
+        Ok(g) => {
+            run.count(&format!("mem_{tag}_completed"));
+            // the known shape (notes/C05.md): the chunked nested loop join ends without the global
+            // right-side emission; everything else it produced is right
+            let known = tag == "nlj" && g != want && lost_exactly_right_final(inp, g, want);
+            let (op, name) = if known {
+                ("join.nlj_memlimit.skips_global_right_emission".to_string(), format!("{opname}[memory-limited: global right-side emission skipped]"))
+            } else {
+                (format!("join.{tag}_memlimit"), format!("{opname}[memory-limited]"))
+            };
+            run.case(&op, req, g, nt);
+            run.oracle(g == want, &format!("{name} vs NestedLoopJoinExec(unlimited) {cfg} {req}"), &format!("memory-limited `{g}`, unlimited `{want}`"));
+        }
+    }
+}
+
+/// the exact input of notes/external/nlj_two_left_batches_memory_limited.rs in this harness's schema:
+/// left = 2 batches of 2 rows, tiny memory limit, spilling on; runs first
+fn nlj_memlimit_directed(run: &mut Run, rt: &tokio::runtime::Runtime) {
+    let ls = schema(["a", "b", "x"]);
+    let rs = schema(["c", "d", "y"]);
+    let l: Vec<Row> = vec![vec![Some(1), Some(0), Some(10)], vec![Some(2), Some(0), Some(20)], vec![Some(3), Some(0), Some(30)], vec![Some(4), Some(0), Some(40)]];
+    let r: Vec<Row> = vec![vec![Some(5), Some(0), Some(500)], vec![Some(7), Some(0), Some(700)], vec![Some(1), Some(0), Some(100)], vec![Some(3), Some(0), Some(300)]];
+    for jt in JOIN_TYPES {
+        let inp = Input { jt, ne: false, nkeys: 1, filter: false, l: l.clone(), r: r.clone() };
+        let mk = || -> Arc<dyn ExecutionPlan> {
+            Arc::new(NestedLoopJoinExec::try_new(mem_exec(&ls, &fixed_batches(&l, 2)), mem_exec(&rs, &fixed_batches(&r, 2)), inp.full_filter(1, false), &jt, None).unwrap())
+        };
+        let want = exec(rt, mk(), ctx(16, true)).unwrap_or_else(|e| e);
+        let got = exec(rt, mk(), ctx_mem(16, 50, true));
+        let req = inp.sexp(1, false, &[r.clone()]);
+        run.count("mem_nlj_directed");
+        record_mem(run, "NestedLoopJoinExec", "nlj", &got, &want, &req, "limit=50 spill=true batch_size=16 left_batches=2x2 right_batches=2x2 directed", true, &inp);
+    }
+}
+
+fn memory_limited(run: &mut Run, rng: &mut Rng, rt: &tokio::runtime::Runtime) {
+    let ls = schema(["a", "b", "x"]);
+    let rs = schema(["c", "d", "y"]);
+    let n = run.budget(40, 1200);
+    let limits = [1usize, 50, 300, 700, 1500, 4000, 20_000, 1 << 30];
+    for _ in 0..n {
+        let l = gen_rows(rng, 8);
+        let r = gen_rows(rng, 8);
+        let (lk, rk) = (1 + rng.below(3) as usize, 1 + rng.below(3) as usize);
+        for jt in JOIN_TYPES {
+            let inp = Input { jt, ne: rng.chance(1, 2), nkeys: 1 + rng.below(2) as usize, filter: rng.chance(1, 2), l: l.clone(), r: r.clone() };
+            let nt = inp.nontrivial();
+            let limit = *rng.pick(&limits);
+            let spill = rng.chance(3, 4);
+            let bsz = *rng.pick(&[1usize, 2, 3, 8192]);
+            let cfg = format!("limit={limit} spill={spill} batch_size={bsz} left_batch_rows={lk} right_batch_rows={rk}");
+            run.count(&format!("mem_limit_{limit}"));
+            run.count(if spill { "mem_spill_enabled" } else { "mem_spill_disabled" });
+            let req = inp.sexp(inp.nkeys, inp.filter, &[inp.r.clone()]);
+            let lb = fixed_batches(&inp.l, lk);
+            let rb = fixed_batches(&inp.r, rk);
+            // reference: the nested loop join without any limit
+            let refp: Arc<dyn ExecutionPlan> =
+                Arc::new(NestedLoopJoinExec::try_new(mem_exec(&ls, &lb), mem_exec(&rs, &rb), inp.full_filter(inp.nkeys, inp.filter), &jt, None).unwrap());
+            let want = match exec(rt, refp, ctx(bsz, true)) {
+                Ok(w) => w,
+                Err(e) => {
+                    run.oracle(false, &format!("NestedLoopJoinExec(unlimited) failed {req}"), &e);
+                    continue;
+                }
+            };
+            // nested loop join (chunked fallback when the left side does not fit)
+            {
+                let plan: Arc<dyn ExecutionPlan> =
+                    Arc::new(NestedLoopJoinExec::try_new(mem_exec(&ls, &lb), mem_exec(&rs, &rb), inp.full_filter(inp.nkeys, inp.filter), &jt, None).unwrap());
+                let got = exec(rt, plan.clone(), ctx_mem(bsz, limit, spill));
+                if got.is_ok() && plan.metrics().and_then(|m| m.spill_count()).unwrap_or(0) > 0 {
+                    run.count("mem_nlj_completed_after_chunked_fallback");
+                }
+                record_mem(run, "NestedLoopJoinExec", "nlj", &got, &want, &req, &cfg, nt, &inp);
+            }
+            // sort-merge join over pre-sorted inputs (no SortExec: the budget is the join's alone)
+            {
+                let sort_rows = |rows: &[Row]| {
+                    let mut v = rows.to_vec();
+                    v.sort_by(|a, b| a[..inp.nkeys].cmp(&b[..inp.nkeys])); // None < Some: ascending, NULLs first
+                    v
+                };
+                let (sl, sr) = (sort_rows(&inp.l), sort_rows(&inp.r));
+                if let Ok(plan) = SortMergeJoinExec::try_new(
+                    mem_exec(&ls, &fixed_batches(&sl, lk)),
+                    mem_exec(&rs, &fixed_batches(&sr, rk)),
+                    inp.on(),
+                    inp.join_filter(),
+                    inp.jt,
+                    vec![SortOptions::default(); inp.nkeys],
+                    inp.null_eq(),
+                ) {
+                    let plan: Arc<dyn ExecutionPlan> = Arc::new(plan);
+                    let got = exec(rt, plan.clone(), ctx_mem(bsz, limit, spill));
+                    if got.is_ok() && plan.metrics().and_then(|m| m.spill_count()).unwrap_or(0) > 0 {
+                        run.count("mem_smj_completed_after_spilling");
+                    }
+                    record_mem(run, "SortMergeJoinExec", "smj", &got, &want, &req, &cfg, nt, &inp);
+                }
+            }
+            // hash join, both modes
+            for (mode, tag) in [(PartitionMode::CollectLeft, "hash_collect_left"), (PartitionMode::Partitioned, "hash_partitioned")] {
+                let (lsrc, rsrc): (Arc<dyn ExecutionPlan>, Arc<dyn ExecutionPlan>) = if mode == PartitionMode::Partitioned {
+                    let lkeys: Vec<Arc<dyn PhysicalExpr>> = inp.on().iter().map(|p| p.0.clone()).collect();
+                    let rkeys: Vec<Arc<dyn PhysicalExpr>> = inp.on().iter().map(|p| p.1.clone()).collect();
+                    (repart(mem_exec(&ls, &lb), lkeys, 2), repart(mem_exec(&rs, &rb), rkeys, 2))
+                } else {
+                    (mem_exec(&ls, &lb), mem_exec(&rs, &rb))
+                };
+                let plan = HashJoinExec::try_new(lsrc, rsrc, inp.on(), inp.join_filter(), &inp.jt, None, mode, inp.null_eq(), false).unwrap();
+                let got = exec(rt, Arc::new(plan), ctx_mem(bsz, limit, spill));
+                record_mem(run, "HashJoinExec", tag, &got, &want, &req, &cfg, nt, &inp);
+            }
+            // symmetric hash join
+            if let Ok(plan) = SymmetricHashJoinExec::try_new(
+                mem_exec(&ls, &lb),
+                mem_exec(&rs, &rb),
+                inp.on(),
+                inp.join_filter(),
+                &inp.jt,
+                inp.null_eq(),
+                None,
+                None,
+                StreamJoinPartitionMode::SinglePartition,
+            ) {
+                let got = exec(rt, Arc::new(plan), ctx_mem(bsz, limit, spill));
+                record_mem(run, "SymmetricHashJoinExec", "symmetric_hash", &got, &want, &req, &cfg, nt, &inp);
+            }
+        }
+    }
+}
+
 pub fn run(run: &mut Run, args: &Args) {
     hutil::quiet_panics();
     let mut rng = Rng::new(args.seed);
     let rt = tokio::runtime::Builder::new_multi_thread().worker_threads(2).enable_all().build().unwrap();
     shj_stale_hash_probe(run, &rt);
+    nlj_memlimit_directed(run, &rt);
     tables(run);
+    memory_limited(run, &mut rng.fork(), &rt);
     let ls = schema(["a", "b", "x"]);
     let rs = schema(["c", "d", "y"]);
     let n_inputs = run.budget(160, 5000);
